@@ -240,6 +240,7 @@ let handle (fields : string list) : string =
       | "eq" -> (match exp with [e] -> list_eqb_nat e o | _ -> false)
       | _ -> failwith "bad fanchk mode") in
     if ok then "ok" else "violated"
+  | ["expect"; v] | ["expect"; v; _] -> v
   | ["tsmono"; ops] ->
     let ts = List.filter_map (fun op -> match split '@' op with
                                 | [_; now] -> if now = "0" then None else Some (n_of_string now)
